@@ -4,8 +4,8 @@ from checks.engine_common import run_engine
 META = {
     "property_id": "C01",
     "technique": "Coq invariant proof over a Gallina model of the build engine + history correspondence with fresh-process builds",
-    "level_text": 'Theorems (Coq, all histories): never_stale (after any history of edits, builds incl. failing and killed ones, collections, a successful build leaves every visited target current w.r.t. the ghost history of recorded executions), records_tell_the_truth, run_ids_below_counter, executed_run_is_fresh, successful_visits_are_fresh. Correspondence: 4 scripted scenarios + random projects x random histories (edits incl. inside source directories, partial builds, failing bodies, killed builds, dry runs, gc), every build a fresh process, the model recomputes executed sets, events and records of every step; oracle: generated files equal a from-scratch build after every successful build.',
-    "level_note": 'Trusted: Coq kernel; abstractions of Build/Model.v (content hash injective, run IDs fresh, sequential evaluation in a topological order justified by C04, bodies deterministic and confined to declared inputs/outputs); the harness assigns equal environment numbers exactly to equal semantic function text. incremental_eq_clean is an oracle, not a theorem.',
+    "level_text": 'Theorems (Coq, all histories): never_stale (after any history of edits, builds incl. failing and killed ones, collections, a successful build leaves every visited target current w.r.t. the ghost history of recorded executions), records_tell_the_truth, run_ids_below_counter, executed_run_is_fresh, successful_visits_are_fresh; incremental_eq_clean (after any history a successful build leaves a tree on which a from-scratch build -- records wiped -- succeeds everywhere, runs every function target of the closure and leaves every path with the content it had; hypotheses stated over a universally quantified behaviour table: environment determines reads/outputs/constant, one generator per path, no edits of generated paths, killed builds marked-before-run), incremental_eq_clean_checked (the same with the hypotheses as one boolean hist_okb, evaluated on every driven history), valid_records_describe_outputs (the invariant). Correspondence: 12 scripted scenarios + random projects x random histories (edits incl. inside source directories, partial builds, failing bodies, killed builds, dry runs, gc), every build a fresh process, the model recomputes executed sets, events and records of every step; oracle: generated files equal a from-scratch build after every successful build; statistic: histories within the hypotheses of incremental_eq_clean (all).',
+    "level_note": 'Trusted: Coq kernel; abstractions of Build/Model.v (content hash injective, run IDs fresh, sequential evaluation in a topological order justified by C04, bodies deterministic and confined to declared inputs/outputs); the harness assigns equal environment numbers exactly to equal semantic function text (one module file per function, so the key is exact).',
     "design_ref": "DESIGN.md §6 C01",
 }
 
